@@ -247,12 +247,10 @@ class G:
                                     ("float", "1.5", 1), ("list", "[]", 0),
                                     ("types.MappingProxyType[str, int]", "types.MappingProxyType({'a': 1})", 0), ("ENUMCLS", "", 0), ("ENUMCLS", "", 0)])
                 if t == "ENUMCLS":
-                    # the factory is the rendered name of a schema class: it must denote that class (module scope only:
-                    # a local class as factory is the known finding defaultdict-factory-local-class, kept in the identity family)
-                    if self.defloc == "module":
-                        t, v, _ = self.enum_cls()
-                        return f"DefaultDict[{kt}, {t}]", f"collections.defaultdict(lambda: {v}, {{{kv}: {v}}})", False
-                    t, v = "int", "1"
+                    # the factory is a reference to a schema class: it must denote that class, at module scope (module.qualname chain)
+                    # and inside a function (clean_id alias; since /repo d8ae0ee the factory goes through get_type_name_identifier)
+                    t, v, _ = self.enum_cls()
+                    return f"DefaultDict[{kt}, {t}]", f"collections.defaultdict({t}, {{{kv}: {v}}})", False
                 fac = "list" if t.startswith(("List", "list")) else "dict" if t.startswith(("Dict", "types.")) else t
                 return f"DefaultDict[{kt}, {t}]", f"collections.defaultdict({fac}, {{{kv}: {v}}})", False
             if k == "OrderedDict":
